@@ -89,7 +89,7 @@ func VPH_C04_setweight() {
 		sel = []string{tag}
 	}
 	w := vp.Float64("weight")
-	vp.Assume(w >= 0 && w <= 1)
+	vp.Assume(w == 0 || (w >= 1e-6 && w <= 1)) // weights outside [1e-9, 1e9] are treated as dynamic (C02)
 	vp.CutBefore("sort.Sort")
 	got := r.setWeight(svc, w, sel)
 	matches := 0
